@@ -9,6 +9,9 @@ CONSTANTS
   SaveAsSet = {}
   Modes = {}
   MayFail = FALSE
+  OutcomeSet = {}
+  BackedSet = {FALSE}
+  RecordMode = "component"
   PoolSet = {FALSE}
   AssembleMode = "index"
   MaxFaults = 0
